@@ -4,3 +4,4 @@ import Properties.C07
 import Properties.C09
 import Properties.C10
 import Properties.C16
+import Properties.C06
